@@ -555,14 +555,19 @@ impl Emitter {
                 }
 
                 // Skip comment processing AND `last_token` update for
-                // duplicated / stripped / skipped tokens — several emit
-                // helpers rely on `last_token` pointing at the most recent
+                // duplicated / skipped tokens — several emit helpers rely
+                // on `last_token` pointing at the most recent
                 // non-duplicated token.
-                if duplicated.is_some() || self.build_opt.strip_comments || self.skip_comment {
+                if duplicated.is_some() || self.skip_comment {
                     return;
                 }
 
-                self.process_comment(x, will_push);
+                // `strip_comments` drops the comments only; `last_token`
+                // must still advance (without `vertical_align` no align
+                // walk has set it, and the helpers would unwrap `None`).
+                if !self.build_opt.strip_comments {
+                    self.process_comment(x, will_push);
+                }
             }
             Mode::Align => {
                 self.aligner.token(x);
